@@ -78,7 +78,10 @@ class RecLogger:
 
 
 class World:
+    current: Optional["World"] = None
+
     def __init__(self, tape: Tape, worker: str = "asyncio") -> None:
+        self.handlers: Dict[int, list] = {}
         self.tape = tape
         self.worker = worker
         self.sim = Sim(tape)
@@ -119,6 +122,45 @@ class World:
         hc_config.time = wall
         hc_http_stream.time = wall
         hc_ws_stream.time = wall
+        self._probe_handlers()
+
+    def _probe_handlers(self) -> None:
+        """Observation-only wrapper around TCPServer.run: handler start/end per connection."""
+        world = self
+        try:
+            if self.worker == "asyncio":
+                import hypercorn.asyncio.tcp_server as mod
+            else:
+                import hypercorn.trio.tcp_server as mod
+            cls = mod.TCPServer
+            orig = getattr(cls, "_hcsim_orig_run", None) or cls.run
+            cls._hcsim_orig_run = orig
+
+            async def run(self_: Any) -> None:
+                cid = None
+                try:
+                    if hasattr(self_, "writer"):
+                        cid = self_.writer.get_extra_info("socket")._sock.conn.id
+                    else:
+                        sock = getattr(self_.stream, "socket", None) or self_.stream.transport_stream.socket
+                        cid = sock._fake.conn.id
+                except Exception:
+                    pass
+                w = World.current
+                if w is not None and cid is not None:
+                    w.handlers[cid] = [w.sim.now, None]
+                    w.sim.rec("handler.start", cid)
+                try:
+                    await orig(self_)
+                finally:
+                    if w is not None and cid is not None:
+                        w.handlers[cid][1] = w.sim.now
+                        w.sim.rec("handler.end", cid)
+
+            cls.run = run
+            World.current = world
+        except Exception as error:  # pragma: no cover
+            self.sim.notes.append(f"handler probe unavailable: {error!r}")
 
     def _randint(self, a: int, b: int) -> int:
         v = a + self.randint_value
